@@ -46,7 +46,7 @@ CHECKS["C27"] = dict(
     judge=dict(spec="RouteTableTrace.tla", cfg="RouteTableTrace.cfg"),
     corrupt=corrupt_field("save", "stored", lambda e: [] if e.get("stored") else None),
     nontrivial=lambda s: any(o["op"] == "save" for o in s["ops"]) and any(o["op"] in ("del", "gc", "reload") for o in s["ops"]),
-    rule="TLC-generated histories of save/del/gc/tick/reload (edges: one shortest history per (table state, operation) pair over 7 "
+    rule="TLC-generated histories of save/del/gc/tick/reload (edges: one shortest history per (source table state, operation) pair over 7 "
          "paths on 4 nodes; walks: -simulate over 86 paths), Alpha 1 and 2, each run on the mock and in-memory LevelDB stores "
          "(a bounded number also on on-disk LevelDB with close/reopen); distinct = distinct (alpha, operation sequence); "
          "non-trivial = saves a path and later deletes, collects or reloads",
@@ -176,8 +176,7 @@ CHECKS["C38"] = dict(
             dict(spec="MCMulticast.tla", cfg="MCMulticastFlood4.cfg", workers=8, timeout=1500, thorough_only=True)],
     gen=dict(
         quick=[dict(mode="edges", spec=_MG, cfg="MulticastGenMemberEdges1.cfg", depth=4, max=350, name="member-edges-1group"),
-               dict(mode="edges", spec=_MG, cfg="MulticastGenMemberEdges.cfg", depth=3, max=60, name="member-edges"),
-               dict(mode="sim", spec=_MG, cfg="MulticastGenMemberSim.cfg", depth=12, num=6, max=40, name="member-walks"),
+               dict(mode="sim", spec=_MG, cfg="MulticastGenMemberSim.cfg", depth=12, num=8, max=60, name="member-walks"),
                dict(mode="sim", spec=_MG, cfg="MulticastGenFill.cfg", depth=8, num=4, max=25, salt=1, name="member-fill"),
                dict(mode="edges", spec=_MG, cfg="MulticastGenFloodEdges.cfg", depth=20, max=80, name="flood-edges"),
                dict(mode="sim", spec=_MG, cfg="MulticastGenFloodSim.cfg", depth=40, num=60, max=60, dedup=True, salt=2, name="flood-walks")],
